@@ -1,1 +1,59 @@
-From C14 Require Import ModelScale ProofsCompact ProofsScale.
+(* C14/Proofs.v — the registry of wire types: every schema is well formed, so the codec
+   theorems apply to each of them; the pinned tree's header schema misses a variant. *)
+From Common Require Import Bytes Blake2b.
+From C14 Require Export ModelScale ModelTypes ModelHeader ModelProto
+  ProofsCompact ProofsScale ProofsHeader ProofsProto.
+Local Open Scope N_scope.
+
+Lemma registry_wf : forallb (fun p => wf_ty (snd p)) registry = true.
+Proof. vm_compute. reflexivity. Qed.
+
+Lemma registry_wf_in n t : In (n, t) registry -> wf_ty t = true.
+Proof.
+  intro H. pose proof registry_wf as W. rewrite forallb_forall in W. exact (W (n, t) H).
+Qed.
+
+Lemma registry_roundtrip n t : In (n, t) registry ->
+  forall v, has_type t v = true -> decode_all t (encode t v) = Some v.
+Proof. intros H v Hv. apply decode_all_encode; [exact (registry_wf_in n t H) | exact Hv]. Qed.
+
+Lemma registry_roundtrip_stream n t : In (n, t) registry ->
+  forall v rest, has_type t v = true -> decode t (encode t v ++ rest) = Some (v, rest).
+Proof. intros H v rest Hv. apply decode_encode; [exact (registry_wf_in n t H) | exact Hv]. Qed.
+
+Lemma registry_canonical n t : In (n, t) registry ->
+  forall bs v, decode_all t bs = Some v -> bs = encode t v /\ has_type t v = true.
+Proof. intros _ bs v. apply decode_all_canonical. Qed.
+
+Lemma registry_injective n t : In (n, t) registry ->
+  forall v w, has_type t v = true -> has_type t w = true -> encode t v = encode t w -> v = w.
+Proof. intros H v w. apply encode_injective. exact (registry_wf_in n t H). Qed.
+
+Lemma type_of_name_in n t : type_of_name n = Some t -> exists m, In (m, t) registry.
+Proof.
+  unfold type_of_name. generalize registry. induction l as [|[m u] l IH]; [discriminate|].
+  cbn [find_type]. destruct (bytes_eqb n m).
+  - intro E; injection E as ->. exists m. now left.
+  - intro E. destruct (IH E) as [k Hk]. exists k. now right.
+Qed.
+
+(* a header carrying an `Other` digest item: a value of the specified header type whose
+   encoding the pinned tree's DigestItem (no variant 0) cannot decode *)
+Definition other_header : val :=
+  VS [VB (zeros 32); VN 1; VB (zeros 32); VB (zeros 32); VL [VE 0 (VB [n2b 1; n2b 2; n2b 3])]].
+
+Lemma other_header_prefix :
+  has_type header other_header = true /\
+  decode_all header (encode header other_header) = Some other_header /\
+  decode_all header_prefix (encode header other_header) = None.
+Proof. repeat split; vm_compute; reflexivity. Qed.
+
+(* on values without an `Other` item the two schemas encode alike: shown on the level of the
+   digest item type *)
+Lemma digest_item_prefix_agrees i x :
+  i <> 0 -> encode digest_item_prefix (VE i x) = encode digest_item (VE i x)
+            /\ has_type digest_item_prefix (VE i x) = has_type digest_item (VE i x).
+Proof.
+  intro H. unfold digest_item, digest_item_prefix. cbn [encode has_type lookup].
+  destruct (N.eqb_spec i 0); [congruence|]. split; reflexivity.
+Qed.
